@@ -1,9 +1,11 @@
 /-
-One slot of the loading loop preserves the invariant (or crashes, never by running out of fuel).
+One slot of the loading loop preserves the invariant, or the rebuild dies in one of the four `allowed` ways.
 -/
-import SquidModel.Rock.Invariant
+import SquidModel.Rock.Proc
 
 namespace SquidModel.Rock
+
+variable {A : Allow}
 
 theorem InvCore.congr {cfg : Cfg} {pL pC : Int} {ex : Option Nat} {st st' : St} (h : InvCore cfg img pL pC ex st)
     (hle : st'.le = st.le) (hls : st'.ls = st.ls) (han : st'.an = st.an) (hsl : st'.sl = st.sl) (hfree : st'.free = st.free) :
@@ -56,24 +58,172 @@ theorem loadingWith_length {pL : Int} {st : St} {f : Nat} {L : List Int} {n : Na
 
 /-! ### freeBadEntry / finalizeOrFree on an entry in the middle of addSlotToEntry (or during validation) -/
 
+/-- the slots of a Loading list pass `loadingSlot()` -/
+theorem loadingWith_slotOk {g : Geo} {pos pL : Int} {st : St} {f : Nat} {L : List Int} (hL : LoadingWith pL st f L)
+    (hpL : pL ≤ g.slots) (hpp : pL ≤ pos + 1) : ∀ x ∈ L, slotOk g pos x = true ∧ (st.ls x).freed = false := by
+  intro x hx
+  have hr := hL.range x hx
+  refine ⟨?_, (hL.slots x hx).1⟩
+  simp only [slotOk, Bool.and_eq_true, decide_eq_true_eq]
+  omega
+
+/-- under `Own` every slot a walk of entry `f` marks was added to `f` -/
+theorem walked_owner {cfg : Cfg} {g : Geo} {pos pL pC : Int} {ex : Option Nat} {st : St} {f : Nat} {L C : List Int} {e : Int}
+    (h : InvCore cfg img pL pC ex st) (hL : LoadingWith pL st f L) (ho : Own cfg img)
+    (hseg : Seg st.next (st.an f).start C e) (hsl : ∀ x ∈ C, WalkedSlot cfg g pos f st x) :
+    ∀ x ∈ C, (st.ls x).owner = (f : Int) := by
+  intro x hx
+  cases ho with
+  | inl hflag => exact (hsl x hx).owner hflag
+  | inr hlinks =>
+    have hstart : (st.ls (st.an f).start).owner = (f : Int) := by
+      cases C with
+      | nil => cases hx
+      | cons c cs =>
+        obtain ⟨hc, hc0, _⟩ := hseg
+        exact (hL.slots _ (hL.chain.start_mem (by rw [hc]; exact hc0))).2
+    exact seg_owner_of_links hlinks h.disk C _ e _ hseg (fun y hy => ⟨(hsl y hy).mapped, (hsl y hy).fresh⟩) hstart x hx
+
+theorem ProcCore.extend {cfg : Cfg} {img : List RawSlot} {p : Int} {ex : Option Nat} {st : St} (h : ProcCore cfg img p ex st)
+    (hp : (st.ls p).freed = true ∨ ((st.ls p).mapped = true ∧ (st.ls p).finalized = true)) : ProcCore cfg img (p + 1) ex st := by
+  refine ⟨?_, h.clean, h.members, h.sizes⟩
+  intro x h0 h1
+  by_cases hxp : x = p
+  · subst hxp
+    rcases hp with a | a
+    · exact Or.inl a
+    · exact Or.inr (Or.inl a)
+  · exact h.done x h0 (by omega)
+
+theorem markFreed_flags (ls : Int → LSlot) (L : List Int) (x : Int) :
+    (markFreed ls L x).owner = (ls x).owner ∧ (markFreed ls L x).more = (ls x).more ∧
+    (markFreed ls L x).mapped = (ls x).mapped ∧ (markFreed ls L x).finalized = (ls x).finalized ∧
+    ((ls x).freed = true → (markFreed ls L x).freed = true) ∧ (x ∉ L → (markFreed ls L x).freed = (ls x).freed) ∧
+    (x ∈ L → (markFreed ls L x).freed = true) := by
+  by_cases hx : x ∈ L <;> simp [markFreed, hx]
+
+theorem markFinal_flags (ls : Int → LSlot) (C : List Int) (x : Int) :
+    (markFinal ls C x).owner = (ls x).owner ∧ (markFinal ls C x).more = (ls x).more ∧
+    (markFinal ls C x).mapped = (ls x).mapped ∧ (markFinal ls C x).freed = (ls x).freed ∧
+    ((ls x).finalized = true → (markFinal ls C x).finalized = true) ∧ (x ∉ C → (markFinal ls C x).finalized = (ls x).finalized) ∧
+    (x ∈ C → (markFinal ls C x).finalized = true) := by
+  by_cases hx : x ∈ C <;> simp [markFinal, hx]
+
 theorem freeBad_inv {cfg : Cfg} {g : Geo} {pos pL pC : Int} {ex : Option Nat} {st : St} {f : Nat}
-    (h : InvCore cfg img pL pC ex st) (hf : (st.le f).state = .loading) (hpL : pL ≤ g.slots) :
-    Sat (freeBadEntry g pos st f) (fun st' => InvCore cfg img pL pC ex st' ∧ (st'.le f).state = .corrupted) := by
-  obtain ⟨_, ⟨L, hL⟩, _⟩ := h.loading f hf
-  refine Sat.mono (freeBadEntry_sat g pos st f L hL.chain (loadingWith_length hL hpL)) ?_
+    (h : InvCore cfg img pL pC ex st) (ht : Tight ex g.entries st) (hf : (st.le f).state = .loading) (hpL : pL ≤ g.slots)
+    (hpp : pL ≤ pos + 1) (hsd : (st.an f).start < 0 ∨ 0 < (st.le f).size)
+    (hfo : FreeOK cfg img pL st) (hA : A.pushed = true ∨ Own cfg img)
+    {pP : Int} (hpr : Own cfg img → ProcCore cfg img pP ex st) :
+    Sat A (freeBadEntry g pos st f)
+      (fun st' => InvCore cfg img pL pC ex st' ∧ Tight ex g.entries st' ∧ FreeOK cfg img pL st' ∧
+        (st'.le f).state = .corrupted ∧ (st'.an f).sfs = 0 ∧ (Own cfg img → ProcCore cfg img pP ex st') ∧
+        (Own cfg img → ∀ x, (st.ls x).owner = (f : Int) → (st'.ls x).freed = true) ∧ (∀ k, k ≠ f → st'.le k = st.le k)) := by
+  obtain ⟨hw, ⟨L, hL⟩, _⟩ := h.loading f hf
+  have hne : (st.le f).state ≠ .empty := by rw [hf]; decide
+  have hpush : A.pushed = true ∨ ∀ x ∈ L, x ∉ st.free :=
+    hA.imp id (fun ho x hx => hfo.lfree ho x f (hL.slots x hx).2 hf (hL.slots x hx).1)
+  refine Sat.mono (freeBadEntry_sat g pos st f L hL.chain (loadingWith_length hL hpL) (ht.bound f hne) hw hsd hL.nodup
+    (loadingWith_slotOk hL hpL hpp) hpush) ?_
   intro st' hp
-  exact ⟨h.freeBad hf hL hp.le hp.an hp.sl hp.ls hp.free, by rw [hp.le]; simp⟩
+  have hstate : ∀ k, k ≠ f → st'.le k = st.le k := fun k hk => by rw [hp.le, upd_other _ _ _ _ hk]
+  have hfreedAll : Own cfg img → ∀ x, (st.ls x).owner = (f : Int) → (st'.ls x).freed = true := by
+    intro ho x hx
+    have hxL := (hpr ho).members f hf pL L hL x hx
+    rw [hp.ls]; exact (markFreed_flags st.ls L x).2.2.2.2.2.2 hxL
+  refine ⟨h.freeBad hf hL hp.le hp.an hp.sl hp.ls hp.free, ht.settle hne (Or.inl rfl) hp.le hp.an,
+    hfo.freeBad hp hL.range hne, by rw [hp.le]; simp, by rw [hp.an]; simp [rewound], ?_, hfreedAll, hstate⟩
+  intro ho
+  refine (hpr ho).step (f0 := f) hstate (fun k hk => by rw [hp.an, upd_other _ _ _ _ hk]) (by rw [hp.le]; simp) ?_ ?_ ?_
+  · intro x
+    rw [hp.ls]
+    have := markFreed_flags st.ls L x
+    exact ⟨this.1, this.2.1, fun e => by rw [this.2.2.1]; exact e, fun e => by rw [this.2.2.2.1]; exact e, this.2.2.2.2.1⟩
+  · intro x hx
+    have hxL : x ∉ L := fun e => hx (hL.slots x e).2
+    rw [hp.ls]
+    have := markFreed_flags st.ls L x
+    exact ⟨this.2.2.2.1, this.2.2.2.2.2.1 hxL⟩
+  · intro x _ _ hx _
+    exact Or.inl (hfreedAll ho x hx)
 
 theorem finalizeOrFree_inv {cfg : Cfg} {g : Geo} {pos pL pC pC' : Int} {ex : Option Nat} {st : St} {f : Nat}
-    (h : InvCore cfg img pL pC ex st) (hf : (st.le f).state = .loading) (hpL : pL ≤ g.slots)
+    (h : InvCore cfg img pL pC ex st) (ht : Tight ex g.entries st) (hf : (st.le f).state = .loading) (hpL : pL ≤ g.slots)
     (hb : ∀ x, slotOk g pos x = true → x < pL ∧ x < pC') (hpc : pC ≤ pC') (hcl : pC ≤ pL)
-    (hsz : (st.an f).sfs = 0 ∨ (st.le f).size ≤ (st.an f).sfs) :
-    Sat (finalizeOrFree cfg g pos st f) (fun st' => InvCore cfg img pL pC' ex st' ∧ (st'.le f).state ≠ .loading) := by
-  obtain ⟨_, ⟨L, hL⟩, _⟩ := h.loading f hf
-  refine Sat.mono (finalizeOrFree_sat cfg g pos st f L hL.chain (loadingWith_length hL hpL)) ?_
+    (hsz : (st.an f).sfs = 0 ∨ (st.le f).size ≤ (st.an f).sfs)
+    (hpp : pL ≤ pos + 1) (hsd : (st.an f).start < 0 ∨ 0 < (st.le f).size)
+    (hfo : FreeOK cfg img pL st) (hA : A.pushed = true ∨ Own cfg img)
+    (hpr : Own cfg img → ProcCore cfg img pL ex st)
+    (hsizeF : Own cfg img → ∀ pL' L, LoadingWith pL' st f L → (st.le f).size = sumOn (payAt cfg img) L) :
+    Sat A (finalizeOrFree cfg g pos st f)
+      (fun st' => InvCore cfg img pL pC' ex st' ∧ Tight ex g.entries st' ∧ FreeOK cfg img pL st' ∧
+        (st'.le f).state ≠ .loading ∧
+        ((st'.an f).sfs = 0 ∨ (st.an f).sfs = 0 ∨ (st'.an f).sfs = (st.an f).sfs) ∧
+        (Own cfg img → ProcCore cfg img pL ex st') ∧ (∀ k, k ≠ f → st'.le k = st.le k)) := by
+  obtain ⟨hw, ⟨L, hL⟩, _⟩ := h.loading f hf
+  have hne : (st.le f).state ≠ .empty := by rw [hf]; decide
+  have hpush : A.pushed = true ∨ ∀ x ∈ L, x ∉ st.free :=
+    hA.imp id (fun ho x hx => hfo.lfree ho x f (hL.slots x hx).2 hf (hL.slots x hx).1)
+  have hmf : ∀ (C : List Int) (x : Int), ((SquidModel.Rock.markFinal st.ls C) x).owner = (st.ls x).owner ∧
+      ((SquidModel.Rock.markFinal st.ls C) x).freed = (st.ls x).freed := by
+    intro C x
+    exact ⟨(markFinal_flags st.ls C x).1, (markFinal_flags st.ls C x).2.2.2.1⟩
+  refine Sat.mono (finalizeOrFree_sat cfg g pos st f L hL.chain (loadingWith_length hL hpL) (ht.bound f hne) hw hsd hL.nodup
+    (loadingWith_slotOk hL hpL hpp) hpush) ?_
   rintro st' ⟨C, hok | hfr⟩
-  · exact ⟨h.finalized hf hok hb hpc hsz, by rw [hok.le]; simp⟩
+  · have hstate : ∀ k, k ≠ f → st'.le k = st.le k := fun k hk => by rw [hok.le, upd_other _ _ _ _ hk]
+    refine ⟨h.finalized hf hok hb hpc hsz, ht.settle hne (Or.inr rfl) hok.le hok.an, ?_, by rw [hok.le]; simp, ?_, ?_, hstate⟩
+    · refine hfo.relabel (e := { st.le f with state := .loaded }) hne (by simp) (fun e => by cases e) hok.le ?_ hok.free
+      intro x; rw [hok.ls]; exact hmf C x
+    · rw [hok.an]
+      simp only [upd_same, finalAnchor]
+      by_cases h0 : (st.an f).sfs = 0
+      · exact Or.inr (Or.inl h0)
+      · simp [h0]
+    · -- every slot the entry owns is in the chain: the chain is inside the list and weighs as much
+      intro ho
+      have hpc0 := hpr ho
+      obtain ⟨e, hseg, _⟩ := hok.chain
+      have hownC := walked_owner h hL ho hseg hok.slots
+      have hCL : ∀ x ∈ C, x ∈ L := fun x hx => hpc0.members f hf pL L hL x (hownC x hx)
+      -- slots of the list are mapped usable cells that no walk has marked
+      have hLfacts : ∀ x ∈ L, (st.ls x).mapped = true ∧ (st.ls x).finalized = false := by
+        intro x hx
+        have hfin := hpc0.clean f x hf (hL.slots x hx).2
+        refine ⟨?_, hfin⟩
+        rcases hpc0.done x (hL.range x hx).1 (hL.range x hx).2 with a | ⟨_, b⟩ | ⟨_, _, _, c⟩
+        · rw [(hL.slots x hx).1] at a; cases a
+        · rw [hfin] at b; cases b
+        · exact c
+      have hpay : ∀ x ∈ L, (st.sl x).size = payAt cfg img x ∧ 0 < payAt cfg img x := by
+        intro x hx
+        obtain ⟨hm, hfn⟩ := hLfacts x hx
+        obtain ⟨hd', hu, _, hs⟩ := h.disk x hm
+        have : payAt cfg img x = hd'.payloadSize := by simp only [payAt, hu]
+        rw [this, hs hfn]
+        exact ⟨rfl, usableAt_payload_pos hu⟩
+      have hsum : sumOn (payAt cfg img) C = sumOn (payAt cfg img) L := by
+        rw [← hsizeF ho pL L hL, ← hok.sum]
+        exact sumOn_frame (fun x hx => by simp only [St.ssize]; exact ((hpay x (hCL x hx)).1).symm)
+      have hLC : ∀ x ∈ L, x ∈ C := subset_of_sum_eq C L hok.nodup hL.nodup hCL (fun x hx => (hpay x hx).2) hsum
+      refine hpc0.step (f0 := f) hstate (fun k hk => by rw [hok.an, upd_other _ _ _ _ hk]) (by rw [hok.le]; simp) ?_ ?_ ?_
+      · intro x
+        rw [hok.ls]
+        have := markFinal_flags st.ls C x
+        exact ⟨this.1, this.2.1, fun e' => by rw [this.2.2.1]; exact e', this.2.2.2.2.1, fun e' => by rw [this.2.2.2.1]; exact e'⟩
+      · intro x hx
+        have hxC : x ∉ C := fun e' => hx (hownC x e')
+        rw [hok.ls]
+        have := markFinal_flags st.ls C x
+        exact ⟨this.2.2.2.2.2.1 hxC, this.2.2.2.1⟩
+      · intro x _ _ hx _
+        have hxL := hpc0.members f hf pL L hL x hx
+        have hxC := hLC x hxL
+        right
+        rw [hok.ls]
+        have := markFinal_flags st.ls C x
+        exact ⟨by rw [this.2.2.1]; exact (hLfacts x hxL).1, this.2.2.2.2.2.2 hxC⟩
   · -- the walk marked C, then the entry was freed
+    have hstate : ∀ k, k ≠ f → st'.le k = st.le k := fun k hk => by rw [hfr.le, upd_other _ _ _ _ hk]
     let stM : St := { st with ls := SquidModel.Rock.markFinal st.ls C }
     have hCp : ∀ x ∈ C, x < pL := by
       intro x hx
@@ -85,35 +235,67 @@ theorem finalizeOrFree_inv {cfg : Cfg} {g : Geo} {pos pL pC pC' : Int} {ex : Opt
         ((SquidModel.Rock.markFinal st.ls C) x).owner = _
       by_cases hx : x ∈ C <;> simp [SquidModel.Rock.markFinal, hx])
     have := hM.freeBad (st' := st') hf hLM hfr.le hfr.an hfr.sl hfr.ls hfr.free
-    exact ⟨this.mono hpc, by rw [hfr.le]; simp⟩
+    have hfoM : FreeOK cfg img pL stM := hfo.same (fun _ => rfl) (fun x => hmf C x) rfl
+    have hpost : FreeBadPost g pos stM f L st' := ⟨hfr.le, hfr.an, hfr.sl, hfr.ls, hfr.free, hfr.ok⟩
+    refine ⟨this.mono hpc, ht.settle hne (Or.inl rfl) hfr.le hfr.an, hfoM.freeBad hpost hL.range hne, by rw [hfr.le]; simp,
+      Or.inl (by rw [hfr.an]; simp [rewound]), ?_, hstate⟩
+    intro ho
+    have hpc0 := hpr ho
+    obtain ⟨e, hseg⟩ := hfr.seg
+    have hownC := walked_owner h hL ho hseg hfr.slots
+    refine hpc0.step (f0 := f) hstate (fun k hk => by rw [hfr.an, upd_other _ _ _ _ hk]) (by rw [hfr.le]; simp) ?_ ?_ ?_
+    · intro x
+      rw [hfr.ls]
+      have a := markFreed_flags (SquidModel.Rock.markFinal st.ls C) L x
+      have b := markFinal_flags st.ls C x
+      exact ⟨by rw [a.1, b.1], by rw [a.2.1, b.2.1], fun e' => by rw [a.2.2.1, b.2.2.1]; exact e',
+        fun e' => by rw [a.2.2.2.1]; exact b.2.2.2.2.1 e', fun e' => a.2.2.2.2.1 (by rw [b.2.2.2.1]; exact e')⟩
+    · intro x hx
+      have hxC : x ∉ C := fun e' => hx (hownC x e')
+      have hxL : x ∉ L := fun e' => hx (hL.slots x e').2
+      rw [hfr.ls]
+      have a := markFreed_flags (SquidModel.Rock.markFinal st.ls C) L x
+      have b := markFinal_flags st.ls C x
+      exact ⟨by rw [a.2.2.2.1]; exact b.2.2.2.2.2.1 hxC, by rw [a.2.2.2.2.2.1 hxL]; exact b.2.2.2.1⟩
+    · intro x _ _ hx _
+      have hxL := hpc0.members f hf pL L hL x hx
+      left
+      rw [hfr.ls]
+      exact (markFreed_flags (SquidModel.Rock.markFinal st.ls C) L x).2.2.2.2.2.2 hxL
 
 end SquidModel.Rock
 
 namespace SquidModel.Rock
 
+variable {A : Allow}
+
 /-! ### chainSlots -/
 
 theorem chainSlot_sat {cfg : Cfg} {g : Geo} {p : Int} {st : St} {f : Nat}
-    (h : InvCore cfg img p p none st) (hf : (st.le f).state = .loading) :
-    Sat (chainSlot g p st f p)
-      (fun st1 => InvCore cfg img (p + 1) p (some f) st1 ∧ st1.le = st.le ∧ (st1.an f).sfs = (st.an f).sfs ∧
-        (st1.ls p).owner = (f : Int) ∧ (st1.ls p).mapped = false ∧ (st1.ls p).freed = false) := by
+    (h : InvCore cfg img p p none st) (ht : Tight none g.entries st) (hf : (st.le f).state = .loading)
+    (hp0 : 0 ≤ p) (hroom : p + 1 ≤ g.slots) (hfo : FreeOK cfg img p st)
+    (hpr : Own cfg img → ProcCore cfg img p none st) :
+    Sat A (chainSlot g p st f p)
+      (fun st1 => InvCore cfg img (p + 1) p (some f) st1 ∧ Tight (some f) g.entries st1 ∧ FreeOK cfg img (p + 1) st1 ∧
+        (Own cfg img → ProcCore cfg img p (some f) st1) ∧
+        (∀ L, LoadingWith p st f L → ∀ pL' L', LoadingWith pL' st1 f L' →
+          ∀ w : Int → Nat, sumOn w L' = w p + sumOn w L) ∧
+        st1.le = st.le ∧
+        (st1.an f).sfs = (st.an f).sfs ∧
+        (st1.ls p).owner = (f : Int) ∧ (st1.ls p).mapped = false ∧ (st1.ls p).freed = false ∧ 0 ≤ (st1.an f).start) := by
   obtain ⟨hw, ⟨L, hL⟩, _⟩ := h.loading f hf
   have hfreshp := h.fresh p (Int.le_refl _)
+  have hne : (st.le f).state ≠ .empty := by rw [hf]; decide
   unfold chainSlot
-  refine Sat.check (by decide) fun hokp => ?_
-  refine Sat.check (by decide) fun _ => ?_
-  have hp0 : 0 ≤ p := by
-    simp only [slotOk, Bool.and_eq_true, decide_eq_true_eq] at hokp
-    omega
+  refine Sat.check (by simp only [slotOk, Bool.and_eq_true, decide_eq_true_eq]; omega) ?_
+  refine Sat.check (by rw [hfreshp.1]; decide) ?_
   -- facts shared by both branches
   have hLp : ∀ x ∈ L, x ≠ p := fun x hx => by have := (hL.range x hx).2; omega
   by_cases hanch : (st.le f).anchored = true
   · simp only [hanch, if_true]
-    refine Sat.check (by decide) fun hoki => ?_
-    have hi0 : 0 ≤ (st.an f).start := by
-      simp only [slotOk, Bool.and_eq_true, decide_eq_true_eq] at hoki
-      omega
+    have hi0 : 0 ≤ (st.an f).start := ht.inode f hf hanch
+    have hir := hL.range _ (hL.chain.start_mem hi0)
+    refine Sat.check (by simp only [slotOk, Bool.and_eq_true, decide_eq_true_eq]; omega) ?_
     -- the list starts with the inode
     cases L with
     | nil => have := Chain.nil_iff.1 hL.chain; omega
@@ -139,8 +321,77 @@ theorem chainSlot_sat {cfg : Cfg} {g : Geo} {p : Int} {st : St} {f : Nat}
         · by_cases h2 : x = p
           · subst h2; rw [hls2_p]; exact ⟨rfl, rfl, rfl, fun e => absurd rfl e⟩
           · rw [hls2_other x h2 h1]; exact ⟨rfl, rfl, rfl, fun _ => rfl⟩
-      refine Sat.pure ⟨?_, rfl, rfl, by show (ls2 p).owner = _; rw [hls2_p],
-        by show (ls2 p).mapped = _; rw [hls2_p, hfreshp.1], by show (ls2 p).freed = _; rw [hls2_p, hfreshp.1]⟩
+      have hfo2 : FreeOK cfg img (p + 1) { st with ls := ls2 } := by
+        refine hfo.chain (st' := { st with ls := ls2 }) hf rfl rfl (by show (ls2 p).owner = _; rw [hls2_p]) ?_ ?_
+        · intro x hx; exact (hfin x).2.2.2 hx
+        · intro x; exact (hfin x).2.2.1
+      -- the new list, once and for all
+      have hnewL : LoadingWith (p + 1) ({ st with ls := ls2 } : St) f (ino :: p :: tail) := by
+        refine ⟨?_, ?_, ?_, ?_⟩
+        · show Chain (fun x => (ls2 x).more) (st.an f).start (ino :: p :: tail)
+          rw [hst]
+          refine Chain.cons_iff.2 ⟨rfl, by omega, ?_⟩
+          rw [hls2_ino]
+          refine Chain.cons_iff.2 ⟨rfl, hp0, ?_⟩
+          rw [hls2_p]
+          refine Chain.frame (fun x hx => ?_) htail
+          have h1 : x ≠ p := hLp x (List.mem_cons_of_mem _ hx)
+          have h2 : x ≠ ino := fun e => hino_tail (e ▸ hx)
+          show (ls2 x).more = (st.ls x).more
+          rw [hls2_other x h1 h2]
+        · refine List.nodup_cons.2 ⟨?_, List.nodup_cons.2 ⟨?_, hnd_tail⟩⟩
+          · intro hm
+            cases hm with
+            | head => exact hinop rfl
+            | tail _ hm => exact hino_tail hm
+          · intro hm; exact hLp p (List.mem_cons_of_mem _ hm) rfl
+        · intro x hx
+          cases hx with
+          | head => have := hL.range ino (List.mem_cons_self ..); omega
+          | tail _ hx =>
+            cases hx with
+            | head => omega
+            | tail _ hx => have := hL.range x (List.mem_cons_of_mem _ hx); omega
+        · intro x hx
+          show (ls2 x).freed = false ∧ (ls2 x).owner = (f : Int)
+          cases hx with
+          | head => rw [hls2_ino]; exact hL.slots ino (List.mem_cons_self ..)
+          | tail _ hx =>
+            cases hx with
+            | head => rw [hls2_p, hfreshp.1]; exact ⟨rfl, rfl⟩
+            | tail _ hx =>
+              have h1 : x ≠ p := hLp x (List.mem_cons_of_mem _ hx)
+              have h2 : x ≠ ino := fun e => hino_tail (e ▸ hx)
+              rw [hls2_other x h1 h2]
+              exact hL.slots x (List.mem_cons_of_mem _ hx)
+      have hsums : ∀ L0, LoadingWith p st f L0 → ∀ pL' L', LoadingWith pL' ({ st with ls := ls2 } : St) f L' →
+          ∀ w : Int → Nat, sumOn w L' = w p + sumOn w L0 := by
+        intro L0 hL0 pL' L' hL' w
+        have e0 : L0 = ino :: tail := hL0.unique hL
+        have e1 : L' = ino :: p :: tail := hL'.unique hnewL
+        subst e0; subst e1
+        simp only [sumOn]; omega
+      have hpr2 : Own cfg img → ProcCore cfg img p (some f) ({ st with ls := ls2 } : St) := by
+        intro ho
+        refine (hpr ho).chain (st1 := { st with ls := ls2 }) (L' := ino :: p :: tail) hf rfl (fun _ _ => rfl) ?_ ?_ ?_ ?_ hfreshp.1 hnewL
+          (List.mem_cons_of_mem _ (List.mem_cons_self ..)) ?_
+        · intro x; exact ⟨(hfin x).1, (hfin x).2.2.1, (hfin x).2.1⟩
+        · intro x hx; exact (hfin x).2.2.2 hx
+        · show (ls2 p).owner = _; rw [hls2_p]
+        · intro x hxp hox
+          have hxi : x ≠ ino := by
+            intro e; subst e
+            exact hox (hL.slots x (List.mem_cons_self ..)).2
+          show (ls2 x).more = _
+          rw [hls2_other x hxp hxi]
+        · intro x hx
+          have := (hpr ho).members f hf p _ hL x hx
+          cases this with
+          | head => exact List.mem_cons_self ..
+          | tail _ hm => exact List.mem_cons_of_mem _ (List.mem_cons_of_mem _ hm)
+      refine Sat.pure ⟨?_, (ht.same (st' := { st with ls := ls2 }) rfl rfl).exempt, hfo2, hpr2, hsums, rfl, rfl, by show (ls2 p).owner = _; rw [hls2_p],
+        by show (ls2 p).mapped = _; rw [hls2_p, hfreshp.1], by show (ls2 p).freed = _; rw [hls2_p, hfreshp.1],
+        by show 0 ≤ (st.an f).start; omega⟩
       show InvCore cfg img (p + 1) p (some f) { st with ls := ls2 }
       refine ⟨?_, h.noIgn, h.idle, ?_, ?_, ?_, ?_, ?_⟩
       · intro x hx
@@ -240,8 +491,60 @@ theorem chainSlot_sat {cfg : Cfg} {g : Geo} {p : Int} {st : St} {f : Nat}
       by_cases h2 : x = p
       · subst h2; rw [hls1_p]; exact ⟨rfl, rfl, rfl, fun e => absurd rfl e⟩
       · rw [hls1_other x h2]; exact ⟨rfl, rfl, rfl, fun _ => rfl⟩
-    refine Sat.pure ⟨?_, rfl, by simp, by show (ls1 p).owner = _; rw [hls1_p],
-      by show (ls1 p).mapped = _; rw [hls1_p, hfreshp.1], by show (ls1 p).freed = _; rw [hls1_p, hfreshp.1]⟩
+    have htight : Tight (some f) g.entries { st with ls := ls1, an := an1 } := by
+      refine ht.exempt.tweak (e := st.le f) (a := { st.an f with start := p }) hne hf (fun _ => hp0)
+        (fun hne' => absurd rfl hne') ?_ rfl
+      show st.le = upd st.le f (st.le f)
+      funext k
+      by_cases hk : k = f
+      · subst hk; simp
+      · simp [upd_other _ _ _ _ hk]
+    have hfo1 : FreeOK cfg img (p + 1) { st with ls := ls1, an := an1 } := by
+      refine hfo.chain (st' := { st with ls := ls1, an := an1 }) hf rfl rfl (by show (ls1 p).owner = _; rw [hls1_p]) ?_ ?_
+      · intro x hx; exact (hfin x).2.2.2 hx
+      · intro x; exact (hfin x).2.2.1
+    have hnewL : LoadingWith (p + 1) ({ st with ls := ls1, an := an1 } : St) f (p :: L) := by
+      refine ⟨?_, ?_, ?_, ?_⟩
+      · show Chain (fun x => (ls1 x).more) (an1 f).start (p :: L)
+        have : (an1 f).start = p := by simp [an1]
+        rw [this]
+        refine Chain.cons_iff.2 ⟨rfl, hp0, ?_⟩
+        rw [hls1_p]
+        refine Chain.frame (fun x hx => ?_) hL.chain
+        show (ls1 x).more = (st.ls x).more
+        rw [hls1_other x (hLp x hx)]
+      · exact List.nodup_cons.2 ⟨fun hm => hLp p hm rfl, hL.nodup⟩
+      · intro x hx
+        cases hx with
+        | head => omega
+        | tail _ hx => have := hL.range x hx; omega
+      · intro x hx
+        show (ls1 x).freed = false ∧ (ls1 x).owner = (f : Int)
+        cases hx with
+        | head => rw [hls1_p, hfreshp.1]; exact ⟨rfl, rfl⟩
+        | tail _ hx => rw [hls1_other x (hLp x hx)]; exact hL.slots x hx
+    have hsums : ∀ L0, LoadingWith p st f L0 → ∀ pL' L', LoadingWith pL' ({ st with ls := ls1, an := an1 } : St) f L' →
+        ∀ w : Int → Nat, sumOn w L' = w p + sumOn w L0 := by
+      intro L0 hL0 pL' L' hL' w
+      have e0 : L0 = L := hL0.unique hL
+      have e1 : L' = p :: L := hL'.unique hnewL
+      subst e0; subst e1
+      simp only [sumOn]
+    have hpr1 : Own cfg img → ProcCore cfg img p (some f) ({ st with ls := ls1, an := an1 } : St) := by
+      intro ho
+      refine (hpr ho).chain (st1 := { st with ls := ls1, an := an1 }) (L' := p :: L) hf rfl (fun k hk => han1_other k hk) ?_ ?_ ?_ ?_
+        hfreshp.1 hnewL (List.mem_cons_self ..) ?_
+      · intro x; exact ⟨(hfin x).1, (hfin x).2.2.1, (hfin x).2.1⟩
+      · intro x hx; exact (hfin x).2.2.2 hx
+      · show (ls1 p).owner = _; rw [hls1_p]
+      · intro x hxp _
+        show (ls1 x).more = _
+        rw [hls1_other x hxp]
+      · intro x hx
+        exact List.mem_cons_of_mem _ ((hpr ho).members f hf p _ hL x hx)
+    refine Sat.pure ⟨?_, htight, hfo1, hpr1, hsums, rfl, by simp, by show (ls1 p).owner = _; rw [hls1_p],
+      by show (ls1 p).mapped = _; rw [hls1_p, hfreshp.1], by show (ls1 p).freed = _; rw [hls1_p, hfreshp.1],
+      by show 0 ≤ (an1 f).start; simp [an1, hp0]⟩
     show InvCore cfg img (p + 1) p (some f) { st with ls := ls1, an := an1 }
     refine ⟨?_, h.noIgn, ?_, ?_, ?_, ?_, ?_, ?_⟩
     · intro x hx
@@ -329,127 +632,315 @@ end SquidModel.Rock
 
 namespace SquidModel.Rock
 
+variable {A : Allow}
+
 /-! ### addSlotToEntry -/
 
-/-- the state in the middle of addSlotToEntry: slot `p` is chained into the Loading entry `f` -/
+/-- the state in the middle of addSlotToEntry: slot `p` is chained into the Loading entry `f` and counted in its size -/
 structure Mid (cfg : Cfg) (img : List RawSlot) (g : Geo) (p : Int) (f : Nat) (hd : Header) (st : St) : Prop where
   core : InvCore cfg img (p + 1) p (some f) st
+  tight : Tight (some f) g.entries st
   loading : (st.le f).state = .loading
   room : p + 1 ≤ g.slots
+  p0 : 0 ≤ p
   cell : usableAt cfg img p = some hd
   owner : (st.ls p).owner = (fileOf cfg img hd : Int)
+  pown : (st.ls p).owner = (f : Int)
+  start0 : 0 ≤ (st.an f).start
+  sized : 0 < (st.le f).size
+  unmapped : (st.ls p).mapped = false
+  unfreed : (st.ls p).freed = false
+  fr : FreeOK cfg img (p + 1) st
+  pr : Own cfg img → ProcCore cfg img p (some f) st
+  psize : Own cfg img → ∀ pL L, LoadingWith pL st f L → (st.le f).size = sumOn (payAt cfg img) L
 
-theorem Mid.freeBad {cfg : Cfg} {g : Geo} {p : Int} {f : Nat} {st : St} (h : Mid cfg img g p f hd st) :
-    Sat (freeBadEntry g p st f) (Inv cfg img (p + 1)) := by
-  refine Sat.mono (freeBad_inv h.core h.loading h.room) ?_
-  rintro st' ⟨hc, hs⟩
-  refine (hc.mono (by omega)).close ?_
-  intro hl; rw [hs] at hl; cases hl
+/-- the invariant between two slots -/
+structure InvT (cfg : Cfg) (img : List RawSlot) (g : Geo) (pos : Int) (st : St) : Prop where
+  core : Inv cfg img pos st
+  tight : Tight none g.entries st
+  fr : FreeOK cfg img pos st
+  pr : Own cfg img → ProcCore cfg img pos none st
+
+theorem Mid.freeBad {cfg : Cfg} {g : Geo} {p : Int} {f : Nat} {st : St} (h : Mid cfg img g p f hd st)
+    (hA : A.pushed = true ∨ Own cfg img) :
+    Sat A (freeBadEntry g p st f) (fun st' => InvT cfg img g (p + 1) st' ∧ (st'.an f).sfs = 0) := by
+  refine Sat.mono (freeBad_inv h.core h.tight h.loading h.room (Int.le_refl _) (Or.inr h.sized) h.fr hA h.pr) ?_
+  rintro st' ⟨hc, ht, hfo, hs, hz, hpr', hfreed, _⟩
+  have hnl : (st'.le f).state = .loading → False := by intro hl; rw [hs] at hl; cases hl
+  refine ⟨⟨(hc.mono (by omega)).close (fun hl => (hnl hl).elim), ht.close (fun hl => (hnl hl).elim), hfo, ?_⟩, hz⟩
+  intro ho
+  exact ((hpr' ho).extend (Or.inl (hfreed ho p h.pown))).close (fun hl => (hnl hl).elim)
+
+theorem upd_self {α β : Type} [DecidableEq α] (f : α → β) (k : α) : f = upd f k (f k) := by
+  funext x
+  by_cases hx : x = k
+  · subst hx; simp
+  · simp [upd_other _ _ _ _ hx]
+
+/-- a LoadingWith list can be read before or after changes to LoadingEntry/anchor fields other than the chain start -/
+theorem LoadingWith.congr {pL : Int} {st st' : St} {f : Nat} {L : List Int} (h : LoadingWith pL st' f L)
+    (hls : st'.ls = st.ls) (hstart : (st'.an f).start = (st.an f).start) : LoadingWith pL st f L :=
+  h.transfer hstart.symm (Int.le_refl _) (fun x _ => by rw [hls]; exact ⟨rfl, rfl, rfl⟩)
 
 theorem Mid.setLe {cfg : Cfg} {g : Geo} {p : Int} {f : Nat} {st : St} (h : Mid cfg img g p f hd st) (e : LEntry)
-    (he : e.state = .loading) : Mid cfg img g p f hd { st with le := upd st.le f e } := by
+    (he : e.state = .loading) (hes : e.size = (st.le f).size) : Mid cfg img g p f hd { st with le := upd st.le f e } := by
   obtain ⟨hw, _, _⟩ := h.core.loading f h.loading
-  refine ⟨h.core.tweak (e := e) (a := st.an f) h.loading he hw rfl (fun hne => absurd rfl hne) rfl ?_ rfl rfl rfl, ?_, h.room, h.cell, h.owner⟩
-  · show st.an = upd st.an f (st.an f)
-    funext k
+  have hne : (st.le f).state ≠ .empty := by rw [h.loading]; decide
+  have hst : ∀ k, ((upd st.le f e) k).state = (st.le k).state := by
+    intro k
     by_cases hk : k = f
-    · subst hk; simp
-    · simp [upd_other _ _ _ _ hk]
+    · subst hk; rw [upd_same, he, h.loading]
+    · rw [upd_other _ _ _ _ hk]
+  refine ⟨h.core.tweak (e := e) (a := st.an f) h.loading he hw rfl (fun hne => absurd rfl hne) rfl (upd_self _ _) rfl rfl rfl,
+    h.tight.tweak (e := e) (a := st.an f) hne he (fun _ => h.start0) (fun hne' => absurd rfl hne') rfl (upd_self _ _),
+    ?_, h.room, h.p0, h.cell, h.owner, h.pown, h.start0, ?_, h.unmapped, h.unfreed,
+    h.fr.relabel (e := e) hne (by rw [he]; decide) (fun _ => h.loading) rfl (fun _ => ⟨rfl, rfl⟩) rfl, ?_, ?_⟩
   · show (upd st.le f e f).state = .loading
     simpa using he
+  · show 0 < (upd st.le f e f).size
+    rw [upd_same, hes]; exact h.sized
+  · intro ho
+    refine (h.pr ho).same hst ?_ (fun _ => rfl) (fun _ => ⟨rfl, rfl, rfl, rfl, id⟩)
+    intro k hk
+    have hkf : k ≠ f := fun e' => hk (by rw [e'])
+    show ((upd st.le f e) k).size = _
+    rw [upd_other _ _ _ _ hkf]
+  · intro ho pL L hL
+    show ((upd st.le f e) f).size = _
+    rw [upd_same, hes]
+    exact h.psize ho pL L (hL.congr rfl rfl)
 
 theorem Mid.setAn {cfg : Cfg} {g : Geo} {p : Int} {f : Nat} {st : St} (h : Mid cfg img g p f hd st) (a : Anchor)
     (ha : a.writing = true) (has : a.start = (st.an f).start) : Mid cfg img g p f hd { st with an := upd st.an f a } := by
-  refine ⟨h.core.tweak (e := st.le f) (a := a) h.loading h.loading ha has (fun hne => absurd rfl hne) ?_ rfl rfl rfl rfl, h.loading, h.room, h.cell, h.owner⟩
-  show st.le = upd st.le f (st.le f)
-  funext k
-  by_cases hk : k = f
-  · subst hk; simp
-  · simp [upd_other _ _ _ _ hk]
+  have hne : (st.le f).state ≠ .empty := by rw [h.loading]; decide
+  have hstart : ∀ k, ((upd st.an f a) k).start = (st.an k).start := by
+    intro k
+    by_cases hk : k = f
+    · subst hk; rw [upd_same, has]
+    · rw [upd_other _ _ _ _ hk]
+  refine ⟨h.core.tweak (e := st.le f) (a := a) h.loading h.loading ha has (fun hne => absurd rfl hne) (upd_self _ _) rfl rfl rfl rfl,
+    h.tight.tweak (e := st.le f) (a := a) hne h.loading (fun _ => by rw [has]; exact h.start0) (fun hne' => absurd rfl hne')
+      (upd_self _ _) rfl,
+    h.loading, h.room, h.p0, h.cell, h.owner, h.pown, ?_, h.sized, h.unmapped, h.unfreed,
+    h.fr.same (fun _ => rfl) (fun _ => ⟨rfl, rfl⟩) rfl, ?_, ?_⟩
+  · show 0 ≤ (upd st.an f a f).start
+    rw [upd_same, has]; exact h.start0
+  · intro ho
+    exact (h.pr ho).same (fun _ => rfl) (fun _ _ => rfl) hstart (fun _ => ⟨rfl, rfl, rfl, rfl, id⟩)
+  · intro ho pL L hL
+    exact h.psize ho pL L (hL.congr rfl (hstart f))
 
 theorem Mid.setCnt {cfg : Cfg} {g : Geo} {p : Int} {f : Nat} {st : St} (h : Mid cfg img g p f hd st) (c : Counts) :
     Mid cfg img g p f hd { st with cnt := c } :=
-  ⟨h.core.congr rfl rfl rfl rfl rfl, h.loading, h.room, h.cell, h.owner⟩
+  ⟨h.core.congr rfl rfl rfl rfl rfl, h.tight.same rfl rfl, h.loading, h.room, h.p0, h.cell, h.owner, h.pown, h.start0, h.sized,
+   h.unmapped, h.unfreed, h.fr.same (fun _ => rfl) (fun _ => ⟨rfl, rfl⟩) rfl,
+   fun ho => (h.pr ho).same (fun _ => rfl) (fun _ _ => rfl) (fun _ => rfl) (fun _ => ⟨rfl, rfl, rfl, rfl, id⟩),
+   fun ho pL L hL => h.psize ho pL L (hL.congr rfl rfl)⟩
 
-theorem Inv.setCnt {cfg : Cfg} {p : Int} {st : St} (h : Inv cfg img p st) (c : Counts) : Inv cfg img p { st with cnt := c } :=
-  InvCore.congr h rfl rfl rfl rfl rfl
+theorem InvT.setCnt {cfg : Cfg} {g : Geo} {p : Int} {st : St} (h : InvT cfg img g p st) (c : Counts) :
+    InvT cfg img g p { st with cnt := c } :=
+  ⟨InvCore.congr h.core rfl rfl rfl rfl rfl, h.tight.same rfl rfl, h.fr.same (fun _ => rfl) (fun _ => ⟨rfl, rfl⟩) rfl,
+   fun ho => (h.pr ho).same (fun _ => rfl) (fun _ _ => rfl) (fun _ => rfl) (fun _ => ⟨rfl, rfl, rfl, rfl, id⟩)⟩
 
-theorem addTail_sat {cfg : Cfg} {g : Geo} {p : Int} {f : Nat} {st : St} {hd : Header} (h : Mid cfg img g p f hd st) :
-    Sat (addSlotToEntry.addTail cfg g p st f p hd) (Inv cfg img (p + 1)) := by
+theorem slotOk_self {g : Geo} {p : Int} (hp0 : 0 ≤ p) (hroom : p + 1 ≤ g.slots) : slotOk g p p = true := by
+  simp only [slotOk, Bool.and_eq_true, decide_eq_true_eq]; omega
+
+theorem addTail_sat {cfg : Cfg} {g : Geo} {p : Int} {f : Nat} {st : St} {hd : Header} (h : Mid cfg img g p f hd st)
+    (hA : A.pushed = true ∨ Own cfg img) :
+    Sat A (addSlotToEntry.addTail cfg g p st f p hd)
+      (fun st' => InvT cfg img g (p + 1) st' ∧ ((st'.an f).sfs = 0 ∨ (st'.an f).sfs = (st.an f).sfs)) := by
   unfold addSlotToEntry.addTail
   by_cases hover : (st.an f).sfs > 0 ∧ (st.le f).size > (st.an f).sfs
   · simp only [hover, and_self, if_true]
-    exact h.freeBad
+    exact Sat.mono (h.freeBad hA) (fun st' hp => ⟨hp.1, Or.inl hp.2⟩)
   · simp only [hover, if_false]
-    refine Sat.bind (mapSlot_sat g p st p hd) ?_
+    refine Sat.bind (mapSlot_sat g p st p hd (slotOk_self h.p0 h.room) h.unmapped h.unfreed) ?_
     intro st1 hm
     have hc1 : InvCore cfg img (p + 1) p (some f) st1 := h.core.mapSlot hm h.cell h.owner
+    have ht1 : Tight (some f) g.entries st1 := h.tight.same hm.le hm.an
+    have hfo1 : FreeOK cfg img (p + 1) st1 := by
+      refine h.fr.same (fun k => by rw [hm.le]) ?_ hm.free
+      intro x
+      rw [hm.ls]
+      by_cases hx : x = p
+      · subst hx; simp
+      · simp [upd_other _ _ _ _ hx]
+    have hpr1 : Own cfg img → ProcCore cfg img (p + 1) (some f) st1 :=
+      fun ho => (h.pr ho).mapped hm h.loading h.pown h.p0
+    have hmore1 : ∀ x, (st1.ls x).more = (st.ls x).more ∧ (st1.ls x).freed = (st.ls x).freed ∧ (st1.ls x).owner = (st.ls x).owner := by
+      intro x
+      rw [hm.ls]
+      by_cases hx : x = p
+      · subst hx; simp
+      · simp [upd_other _ _ _ _ hx]
+    have hps1 : Own cfg img → ∀ pL L, LoadingWith pL st1 f L → (st1.le f).size = sumOn (payAt cfg img) L := by
+      intro ho pL L hL
+      rw [hm.le]
+      refine h.psize ho pL L (hL.transfer (by rw [hm.an]) (Int.le_refl _) (fun x _ => ?_))
+      exact ⟨(hmore1 x).1.symm, (hmore1 x).2.1.symm, (hmore1 x).2.2.symm⟩
     have hl1 : (st1.le f).state = .loading := by rw [hm.le]; exact h.loading
     have hle : st1.le f = st.le f := by rw [hm.le]
     have han : st1.an f = st.an f := by rw [hm.an]
     by_cases hfull : (st.an f).sfs > 0 ∧ (st1.le f).size = (st.an f).sfs
     · simp only [hfull, and_self, if_true]
-      refine Sat.mono (finalizeOrFree_inv (pC' := p + 1) hc1 hl1 h.room ?_ (by omega) (by omega) ?_) ?_
+      refine Sat.mono (finalizeOrFree_inv (pC' := p + 1) hc1 ht1 hl1 h.room ?_ (by omega) (by omega) ?_ (Int.le_refl _)
+        (Or.inr (by rw [hle]; exact h.sized)) hfo1 hA hpr1 hps1) ?_
       · intro x hx
         simp only [slotOk, Bool.and_eq_true, decide_eq_true_eq] at hx
         omega
       · right; rw [han, hfull.2]; exact Nat.le_refl _
-      · rintro st' ⟨hc, hs⟩
-        exact hc.close (fun hl => absurd hl hs)
+      · rintro st' ⟨hc, ht, hfo, hs, hz, hpr', _⟩
+        refine ⟨⟨hc.close (fun hl => absurd hl hs), ht.close (fun hl => absurd hl hs), hfo,
+          fun ho => (hpr' ho).close (fun hl => absurd hl hs)⟩, ?_⟩
+        rw [han] at hz
+        rcases hz with hz | hz | hz
+        · exact Or.inl hz
+        · have := hfull.1; omega
+        · exact Or.inr hz
     · simp only [hfull, if_false]
-      refine Sat.pure ((hc1.mono (by omega)).close ?_)
+      refine Sat.pure ⟨⟨(hc1.mono (by omega)).close ?_, ht1.close (fun _ => Or.inr (by rw [hle]; exact h.sized)), hfo1,
+        fun ho => (hpr1 ho).close (fun _ => hps1 ho)⟩, Or.inr (by rw [han])⟩
       intro _
       rw [han, hle]
       rw [hle] at hfull
       omega
 
 theorem addSlotToEntry_sat {cfg : Cfg} {g : Geo} {p : Int} {f : Nat} {st : St} {hd : Header} {m : Meta}
-    (h : Inv cfg img p st) (hf : (st.le f).state = .loading) (hroom : p + 1 ≤ g.slots)
-    (hu : usableAt cfg img p = some hd) (hfile : f = fileOf cfg img hd) :
-    Sat (addSlotToEntry cfg g p st f p hd m) (Inv cfg img (p + 1)) := by
+    (h : InvT cfg img g p st) (hf : (st.le f).state = .loading) (hroom : p + 1 ≤ g.slots) (hp0 : 0 ≤ p)
+    (hu : usableAt cfg img p = some hd) (hfile : f = fileOf cfg img hd)
+    (hA : A.pushed = true ∨ Own cfg img) (hAll : A.allOnes = true ∨ cfg.v.rejectsAllOnesSizes = true) :
+    Sat A (addSlotToEntry cfg g p st f p hd m)
+      (fun st' => InvT cfg img g (p + 1) st' ∧
+        (cfg.v.rejectsAllOnesSizes = true → (st.an f).sfs ≠ allOnes → (st'.an f).sfs ≠ allOnes)) := by
+  have hne : (st.le f).state ≠ .empty := by rw [hf]; decide
+  have hz1 : (0 : Nat) ≠ allOnes := by decide
   unfold addSlotToEntry
-  refine Sat.check (by decide) fun _ => ?_
-  refine Sat.check (by decide) fun _ => ?_
-  refine Sat.bind (chainSlot_sat h hf) ?_
-  rintro st1 ⟨hc1, hle1, _, hown1, _, _⟩
-  have hmid1 : Mid cfg img g p f hd st1 := ⟨hc1, by rw [hle1]; exact hf, hroom, hu, by rw [hown1, hfile]⟩
-  have hmid2 := hmid1.setLe { st1.le f with size := (st1.le f).size + hd.payloadSize } hmid1.loading
+  refine Sat.check (by simpa using h.tight.bound f hne) ?_
+  refine Sat.check (h.core.loading f hf).1 ?_
+  refine Sat.bind (chainSlot_sat h.core h.tight hf hp0 hroom h.fr h.pr) ?_
+  rintro st1 ⟨hc1, ht1, hfo1, hpr1, hsum1, hle1, hsfs1, hown1, hum1, huf1, hst1⟩
+  have hpay := usableAt_payload_pos hu
+  -- results of the two ways the function ends
+  have bad : ∀ {stx : St} (_ : Mid cfg img g p f hd stx),
+      Sat A (freeBadEntry g p stx f) (fun st' => InvT cfg img g (p + 1) st' ∧
+        (cfg.v.rejectsAllOnesSizes = true → (st.an f).sfs ≠ allOnes → (st'.an f).sfs ≠ allOnes)) := by
+    intro stx hm
+    refine Sat.mono (hm.freeBad hA) ?_
+    rintro st' ⟨hi, hz⟩
+    exact ⟨hi, fun _ _ => by rw [hz]; exact hz1⟩
+  have tail : ∀ {stx : St} (_ : Mid cfg img g p f hd stx),
+      (cfg.v.rejectsAllOnesSizes = true → (st.an f).sfs ≠ allOnes → (stx.an f).sfs ≠ allOnes) →
+      Sat A (addSlotToEntry.addTail cfg g p stx f p hd) (fun st' => InvT cfg img g (p + 1) st' ∧
+        (cfg.v.rejectsAllOnesSizes = true → (st.an f).sfs ≠ allOnes → (st'.an f).sfs ≠ allOnes)) := by
+    intro stx hm hsx
+    refine Sat.mono (addTail_sat hm hA) ?_
+    rintro st' ⟨hi, hz⟩
+    refine ⟨hi, fun hr hs => ?_⟩
+    cases hz with
+    | inl e => rw [e]; exact hz1
+    | inr e => rw [e]; exact hsx hr hs
+  have hl1 : (st1.le f).state = .loading := by rw [hle1]; exact hf
+  have hw1 := (hc1.loading f hl1).1
+  -- the size update establishes the middle state
+  have hmid2 : Mid cfg img g p f hd
+      { st1 with le := upd st1.le f { st1.le f with size := (st1.le f).size + hd.payloadSize } } := by
+    have hne1 : (st1.le f).state ≠ .empty := by rw [hl1]; decide
+    refine ⟨hc1.tweak (e := { st1.le f with size := (st1.le f).size + hd.payloadSize }) (a := st1.an f) hl1 hl1 hw1 rfl
+        (fun hne' => absurd rfl hne') rfl (upd_self _ _) rfl rfl rfl,
+      ht1.tweak (e := { st1.le f with size := (st1.le f).size + hd.payloadSize }) (a := st1.an f) hne1 hl1 (fun _ => hst1)
+        (fun hne' => absurd rfl hne') rfl (upd_self _ _),
+      ?_, hroom, hp0, hu, by rw [hfile] at hown1; exact hown1, hown1, hst1, ?_, hum1, huf1,
+      hfo1.relabel (e := { st1.le f with size := (st1.le f).size + hd.payloadSize }) hne1 (by rw [hl1]; decide)
+        (fun _ => hl1) rfl (fun _ => ⟨rfl, rfl⟩) rfl, ?_, ?_⟩
+    · show (upd st1.le f _ f).state = .loading
+      simpa using hl1
+    · show 0 < (upd st1.le f _ f).size
+      simp only [upd_same]; omega
+    · intro ho
+      refine (hpr1 ho).same ?_ ?_ (fun _ => rfl) (fun _ => ⟨rfl, rfl, rfl, rfl, id⟩)
+      · intro k
+        by_cases hk : k = f
+        · subst hk; show ((upd st1.le k _) k).state = _; rw [upd_same]
+        · show ((upd st1.le f _) k).state = _; rw [upd_other _ _ _ _ hk]
+      · intro k hk
+        have hkf : k ≠ f := fun e' => hk (by rw [e'])
+        show ((upd st1.le f _) k).size = _
+        rw [upd_other _ _ _ _ hkf]
+    · -- the size update re-establishes "size = sum of the payload sizes of the list"
+      intro ho pL L' hL'
+      obtain ⟨_, ⟨L0, hL0⟩, _⟩ := h.core.loading f hf
+      have hL1 : LoadingWith pL st1 f L' := hL'.congr rfl rfl
+      show ((upd st1.le f _) f).size = _
+      rw [upd_same, hsum1 L0 hL0 pL L' hL1 (payAt cfg img)]
+      have hold := (h.pr ho).sizes f hf (by simp) p L0 hL0
+      have hpay : payAt cfg img p = hd.payloadSize := by simp only [payAt, hu]
+      show (st1.le f).size + hd.payloadSize = _
+      rw [hle1, hold, hpay]; omega
   simp only
   by_cases hino : hd.firstSlot = p
   · simp only [hino, if_true]
     by_cases hanch : ((upd st1.le f { st1.le f with size := (st1.le f).size + hd.payloadSize }) f).anchored = true
     · simp only [hanch, if_true]
-      refine Sat.bind hmid2.freeBad ?_
+      refine Sat.bind (bad hmid2) ?_
       intro st3 h3
-      exact Sat.pure (h3.setCnt _)
+      exact Sat.pure ⟨h3.1.setCnt _, h3.2⟩
     · simp only [hanch, if_false, Bool.false_eq_true]
       have hmid3 := hmid2.setLe
         { (upd st1.le f { st1.le f with size := (st1.le f).size + hd.payloadSize }) f with anchored := true }
-        (by simpa using hmid1.loading)
+        (by simpa using hl1) rfl
       split
       · -- importEntry failed
-        exact (hmid3.setCnt _).freeBad
+        exact bad (hmid3.setCnt _)
       · rename_i mk sz _ _
         have hw := (hmid3.core.loading f hmid3.loading).1
         have hmid4 := hmid3.setAn { (st1.an f) with key := mk, sfs := sz, validated := false } (by simpa using hw) rfl
-        split
-        · exact hmid4.freeBad
-        · split
-          · split
-            · exact Sat.throw (by decide)
-            · split
+        by_cases hrj : (cfg.v.rejectsAllOnesSizes && (hd.entrySize == allOnes || sz == allOnes)) = true
+        · rw [if_pos hrj]; exact bad hmid4
+        · rw [if_neg hrj]
+          -- with the variant's check neither size is all-ones here
+          have hclean : cfg.v.rejectsAllOnesSizes = true → hd.entrySize ≠ allOnes ∧ sz ≠ allOnes := by
+            intro hr
+            simp only [hr, Bool.true_and, Bool.or_eq_true, beq_iff_eq, not_or] at hrj
+            exact hrj
+          by_cases he0 : hd.entrySize ≠ 0
+          · rw [if_pos he0]
+            by_cases heA : hd.entrySize = allOnes
+            · rw [if_pos heA]
+              cases hAll with
+              | inl ha => exact Sat.throw ha
+              | inr hr => exact absurd heA (hclean hr).1
+            · rw [if_neg heA]
+              split
               · have hw4 := (hmid4.core.loading f hmid4.loading).1
-                refine addTail_sat (hmid4.setAn _ (by simpa using hw4) (by simp))
+                refine tail (hmid4.setAn _ (by simpa using hw4) (by simp)) ?_
+                intro hr _
+                show Anchor.sfs (upd _ f _ f) ≠ allOnes
+                simp only [upd_same]
+                exact (hclean hr).1
               · split
-                · exact hmid4.freeBad
-                · exact addTail_sat hmid4
-          · exact addTail_sat hmid4
+                · exact bad hmid4
+                · refine tail hmid4 ?_
+                  intro hr _
+                  show Anchor.sfs (upd _ f _ f) ≠ allOnes
+                  simp only [upd_same]
+                  exact (hclean hr).2
+          · rw [if_neg he0]
+            refine tail hmid4 ?_
+            intro hr _
+            show Anchor.sfs (upd _ f _ f) ≠ allOnes
+            simp only [upd_same]
+            exact (hclean hr).2
   · simp only [hino, if_false]
-    exact addTail_sat hmid2
+    refine tail hmid2 ?_
+    intro _ hs
+    show (st1.an f).sfs ≠ allOnes
+    rw [hsfs1]; exact hs
 
 end SquidModel.Rock
 
 namespace SquidModel.Rock
+
+variable {A : Allow}
 
 /-! ### startNewEntry / useNewSlot / loadOneSlot -/
 
@@ -509,17 +1000,20 @@ theorem InvCore.begin {cfg : Cfg} {p : Int} {st st' : St} {f : Nat} {e : LEntry}
     rw [hnext]; exact hC.chain
 
 theorem startNewEntry_sat {cfg : Cfg} {g : Geo} {p : Int} {f : Nat} {st : St} {hd : Header} {m : Meta}
-    (h : Inv cfg img p st) (hf : (st.le f).state = .empty) (hroom : p + 1 ≤ g.slots)
-    (hu : usableAt cfg img p = some hd) (hfile : f = fileOf cfg img hd) :
-    Sat (startNewEntry cfg g p st f p hd m) (Inv cfg img (p + 1)) := by
-  have ha : st.an f = {} := h.idle f (Or.inl hf)
+    (h : InvT cfg img g p st) (hf : (st.le f).state = .empty) (hroom : p + 1 ≤ g.slots) (hp0 : 0 ≤ p)
+    (hu : usableAt cfg img p = some hd) (hfile : f = fileOf cfg img hd) (hfe : f < g.entries)
+    (hA : A.pushed = true ∨ Own cfg img) (hAll : A.allOnes = true ∨ cfg.v.rejectsAllOnesSizes = true) :
+    Sat A (startNewEntry cfg g p st f p hd m) (InvT cfg img g (p + 1)) := by
+  have ha : st.an f = {} := h.core.idle f (Or.inl hf)
   unfold startNewEntry
   simp only [ha, Bool.false_eq_true, if_false, keyEmpty, BEq.rfl, Bool.and_self, Bool.not_true, Bool.or_self, Bool.and_false]
-  refine Sat.check (by decide) fun _ => ?_
+  refine Sat.check (by simp) ?_
   simp only [upd_same]
-  refine Sat.bind (m := addSlotToEntry cfg g p _ f p hd m) (P := Inv cfg img (p + 1)) ?_ ?_
-  · refine addSlotToEntry_sat ?_ ?_ hroom hu hfile
-    · refine h.begin (f := f) (e := { st.le f with state := .loading, version := hd.version, size := 0 })
+  refine Sat.bind (m := addSlotToEntry cfg g p _ f p hd m)
+    (P := fun st' => InvT cfg img g (p + 1) st' ∧ (cfg.v.rejectsAllOnesSizes = true → (st'.an f).sfs ≠ allOnes)) ?_ ?_
+  · refine Sat.mono (addSlotToEntry_sat ⟨?_, ?_, ?_, ?_⟩ ?_ hroom hp0 hu hfile hA hAll)
+      (fun st' hp => ⟨hp.1, fun hr => hp.2 hr (by simp only [upd_same]; decide)⟩)
+    · refine h.core.begin (f := f) (e := { st.le f with state := .loading, version := hd.version, size := 0 })
         (a := { writing := true, key := hd.key, start := -1 }) hf rfl rfl rfl rfl ?_ ?_ rfl rfl rfl
       · rfl
       · show _ = upd st.an f _
@@ -527,66 +1021,123 @@ theorem startNewEntry_sat {cfg : Cfg} {g : Geo} {p : Int} {f : Nat} {st : St} {h
         by_cases hk : k = f
         · subst hk; simp
         · simp [upd_other _ _ _ _ hk]
+    · refine h.tight.begin (f := f) (e := { st.le f with state := .loading, version := hd.version, size := 0 })
+        (a := { writing := true, key := hd.key, start := -1 }) hf hfe rfl rfl rfl ?_ ?_
+      · rfl
+      · show _ = upd st.an f _
+        funext k
+        by_cases hk : k = f
+        · subst hk; simp
+        · simp [upd_other _ _ _ _ hk]
+    · exact h.fr.begin (f := f) (e := { st.le f with state := .loading, version := hd.version, size := 0 }) hf (by simp) rfl rfl rfl
+    · intro ho
+      refine (h.pr ho).begin (f := f) (e := { st.le f with state := .loading, version := hd.version, size := 0 })
+        (a := { writing := true, key := hd.key, start := -1 }) hf (fun x hx => absurd hf (h.fr.owned x f hx)) rfl rfl ?_ ?_ rfl
+      · rfl
+      · show _ = upd st.an f _
+        funext k
+        by_cases hk : k = f
+        · subst hk; simp
+        · simp [upd_other _ _ _ _ hk]
     · simp
-  · intro st4 h4
-    refine Sat.check (by decide) fun _ => ?_
-    exact Sat.pure h4
+  · rintro st4 ⟨h4, hs4⟩
+    cases hAll with
+    | inl ha =>
+      refine Sat.checkA (by simpa [allowed] using ha) fun _ => ?_
+      exact Sat.pure h4
+    | inr hr =>
+      refine Sat.check (by simpa using hs4 hr) ?_
+      exact Sat.pure h4
+
+theorem fresh_flags {cfg : Cfg} {img : List RawSlot} {pL pC : Int} {ex : Option Nat} {st : St} (h : InvCore cfg img pL pC ex st)
+    {x : Int} (hx : pL ≤ x) : (st.ls x).mapped = false ∧ (st.ls x).freed = false := by
+  rw [(h.fresh x hx).1]; exact ⟨rfl, rfl⟩
+
+/-- `freeUnusedSlot` of the slot being loaded -/
+theorem freeUnused_inv {cfg : Cfg} {g : Geo} {pos : Nat} {st : St} {inv : Bool} (h : InvT cfg img g pos st)
+    (hroom : pos + 1 ≤ g.slots) :
+    Sat A (freeUnusedSlot g pos st pos inv) (InvT cfg img g ((pos : Int) + 1)) := by
+  have hf := fresh_flags h.core (x := (pos : Int)) (Int.le_refl _)
+  have hnot : (pos : Int) ∉ st.free := fun hm => by have := (h.fr.frange _ hm).2; omega
+  refine Sat.mono (freeUnusedSlot_sat g pos st pos inv (slotOk_self (by omega) (by omega)) hf.1 hf.2 (Or.inr hnot)) ?_
+  intro st' hp
+  exact ⟨InvCore.freeUnused h.core hp, h.tight.same hp.le hp.an, h.fr.freeSlot hp ⟨by omega, by omega⟩ (by omega),
+    fun ho => (h.pr ho).freeFresh hp (h.core.fresh _ (Int.le_refl _)).1 (by omega)⟩
 
 theorem useNewSlot_sat {cfg : Cfg} {g : Geo} {pos : Nat} {st : St} {hd : Header} {m : Meta}
-    (h : Inv cfg img pos st) (hroom : pos + 1 ≤ g.slots) (hg : g = cfg.geo img.length)
-    (hu : usableAt cfg img (pos : Int) = some hd) :
-    Sat (useNewSlot cfg g pos st pos hd m) (Inv cfg img ((pos : Int) + 1)) := by
+    (h : InvT cfg img g pos st) (hroom : pos + 1 ≤ g.slots) (hg : g = cfg.geo img.length)
+    (hu : usableAt cfg img (pos : Int) = some hd) (hent : 0 < g.entries)
+    (hA : A.pushed = true ∨ Own cfg img) (hAll : A.allOnes = true ∨ cfg.v.rejectsAllOnesSizes = true) :
+    Sat A (useNewSlot cfg g pos st pos hd m) (InvT cfg img g ((pos : Int) + 1)) := by
   have hroom' : (pos : Int) + 1 ≤ g.slots := by omega
+  have hp0 : (0 : Int) ≤ (pos : Int) := by omega
   have hfile : fileNo g hd.key = fileOf cfg img hd := by rw [hg]; rfl
+  have hfe : fileNo g hd.key < g.entries := Nat.mod_lt _ hent
   unfold useNewSlot
-  refine Sat.check (by decide) fun _ => ?_
+  refine Sat.check (by simpa using hfe) ?_
   split
-  · rename_i hs; exact startNewEntry_sat h hs hroom' hu hfile
+  · rename_i hs; exact startNewEntry_sat h hs hroom' hp0 hu hfile hfe hA hAll
   · rename_i hs
-    refine Sat.check (by decide) fun _ => ?_
+    refine Sat.check (h.core.loading _ hs).1 ?_
     split
-    · exact addSlotToEntry_sat h hs hroom' hu hfile
-    · refine Sat.bind (freeBad_inv h hs (by omega)) ?_
-      rintro st1 ⟨h1, _⟩
-      refine Sat.bind (freeUnusedSlot_sat g pos st1 pos true) ?_
+    · exact Sat.mono (addSlotToEntry_sat h hs hroom' hp0 hu hfile hA hAll) (fun st' hp => hp.1)
+    · refine Sat.bind (freeBad_inv (pos := (pos : Int)) h.core h.tight hs (by omega) (by omega) (h.tight.sized _ hs (by simp)) h.fr hA h.pr) ?_
+      rintro st1 ⟨h1, ht1, hfo1, _, _, hpr1, _, _⟩
+      refine Sat.bind (freeUnused_inv (inv := true) ⟨h1, ht1, hfo1, hpr1⟩ hroom) ?_
       intro st2 h2
-      exact Sat.pure (Inv.setCnt (h1.freeUnused h2) _)
+      exact Sat.pure (h2.setCnt _)
   · rename_i hs
-    obtain ⟨hw, C, hC⟩ := h.loaded _ hs
+    obtain ⟨hw, C, hC⟩ := h.core.loaded _ hs
     have hlen : C.length ≤ g.slots := nodup_inRange_length hC.nodup (hC.range.mono (by omega))
-    refine Sat.bind (mapFreeEntry_sat g _ _ C (by simpa using hw) hC.chain hC.nodup hlen) ?_
+    have hne : (st.le (fileNo g hd.key)).state ≠ .empty := by rw [hs]; decide
+    have hpush : A.pushed = true ∨ ∀ x ∈ C, x ∉ st.free := hA.imp id (fun ho x hx => (hC.own ho x hx).2.2)
+    refine Sat.bind (mapFreeEntry_sat g _ _ C (by simpa using hw) hC.chain hC.nodup hlen
+      (fun x hx => by have := (hC.range x hx).2; omega) (by exact hpush)) ?_
     intro st2 h2
-    have hinv2 : InvCore cfg img pos pos none st2 := h.mapFree hs hC h2.le h2.an h2.ls h2.sl h2.free
-    refine Sat.bind (freeUnusedSlot_sat g pos st2 pos true) ?_
+    have hinv2 : InvCore cfg img pos pos none st2 := h.core.mapFree hs hC h2.le h2.an h2.ls h2.sl h2.free
+    have ht2 : Tight none g.entries st2 := h.tight.settle hne (Or.inl rfl) h2.le h2.an
+    have hfo2 : FreeOK cfg img pos st2 :=
+      h.fr.mapFree h2.le h2.ls h2.free hC.range (fun ho x hx => (hC.own ho x hx).1) hne
+    have hpr2 : Own cfg img → ProcCore cfg img pos none st2 := by
+      intro ho
+      refine (h.pr ho).step (f0 := fileNo g hd.key) (fun k hk => by rw [h2.le]; exact upd_other _ _ _ _ hk)
+        (fun k hk => by rw [h2.an]; exact upd_other _ _ _ _ hk) (by rw [h2.le]; simp) ?_ ?_ ?_
+      · intro x; rw [h2.ls]; exact ⟨rfl, rfl, id, id, id⟩
+      · intro x _; rw [h2.ls]; exact ⟨rfl, rfl⟩
+      · intro x _ _ _ hl; rw [hs] at hl; cases hl
+    refine Sat.bind (freeUnused_inv (inv := true) ⟨hinv2, ht2, hfo2, hpr2⟩ hroom) ?_
     intro st3 h3
-    exact Sat.pure (Inv.setCnt (hinv2.freeUnused h3) _)
-  · exact Sat.mono (freeUnusedSlot_sat g pos st pos true) (fun st' hp => h.freeUnused hp)
-  · exact Sat.mono (freeUnusedSlot_sat g pos st pos false) (fun st' hp => h.freeUnused hp)
+    exact Sat.pure (h3.setCnt _)
+  · exact freeUnused_inv h hroom
+  · exact freeUnused_inv h hroom
 
 theorem loadOneSlot_sat {cfg : Cfg} {g : Geo} {pos : Nat} {st : St} {raw : RawSlot}
-    (h : Inv cfg img pos st) (hroom : pos + 1 ≤ g.slots) (hg : g = cfg.geo img.length) (hget : img[pos]? = some raw) :
-    Sat (loadOneSlot cfg g st pos raw) (Inv cfg img ((pos : Int) + 1)) := by
+    (h : InvT cfg img g pos st) (hroom : pos + 1 ≤ g.slots) (hg : g = cfg.geo img.length) (hget : img[pos]? = some raw)
+    (hent : 0 < g.entries) (hA : A.pushed = true ∨ Own cfg img) (hAll : A.allOnes = true ∨ cfg.v.rejectsAllOnesSizes = true) :
+    Sat A (loadOneSlot cfg g st pos raw) (InvT cfg img g ((pos : Int) + 1)) := by
   unfold loadOneSlot
   have h0 := h.setCnt { st.cnt with scan := st.cnt.scan + 1 }
   cases raw with
-  | truncated => exact Sat.mono (freeUnusedSlot_sat g pos _ pos true) (fun st' hp => h0.freeUnused hp)
+  | truncated => exact freeUnused_inv h0 hroom
   | cell hd m =>
     simp only
     split
-    · exact Sat.mono (freeUnusedSlot_sat g pos _ pos false) (fun st' hp => h0.freeUnused hp)
+    · exact freeUnused_inv h0 hroom
     · rename_i hne
       split
-      · exact Sat.mono (freeUnusedSlot_sat g pos _ pos true) (fun st' hp => h0.freeUnused hp)
+      · exact freeUnused_inv h0 hroom
       · rename_i hsane
-        refine useNewSlot_sat h0 hroom hg (usableAt_of_get hget (by simpa using hne) ?_)
+        refine useNewSlot_sat h0 hroom hg (usableAt_of_get hget (by simpa using hne) ?_) hent hA hAll
         have : g.slots = img.length := by rw [hg]; rfl
         rw [← this]
         simpa using hsane
 
-theorem loadAll_sat {cfg : Cfg} {img : List RawSlot} {g : Geo} (hg : g = cfg.geo img.length) :
+theorem loadAll_sat {cfg : Cfg} {img : List RawSlot} {g : Geo} (hg : g = cfg.geo img.length)
+    (hent : 0 < g.slots → 0 < g.entries) (hA : A.pushed = true ∨ Own cfg img)
+    (hAll : A.allOnes = true ∨ cfg.v.rejectsAllOnesSizes = true) :
     ∀ (rest : List RawSlot) (pos : Nat) (st : St),
-    Inv cfg img pos st → pos + rest.length = g.slots → img.drop pos = rest →
-    Sat (loadAll cfg g rest pos st) (Inv cfg img g.slots) := by
+    InvT cfg img g pos st → pos + rest.length = g.slots → img.drop pos = rest →
+    Sat A (loadAll cfg g rest pos st) (InvT cfg img g g.slots) := by
   intro rest
   induction rest with
   | nil =>
@@ -604,67 +1155,119 @@ theorem loadAll_sat {cfg : Cfg} {img : List RawSlot} {g : Geo} (hg : g = cfg.geo
     have hdrop' : img.drop (pos + 1) = rest := by
       have : (img.drop pos).drop 1 = rest := by rw [hdrop]; rfl
       simpa [List.drop_drop, Nat.add_comm] using this
-    refine Sat.bind (loadOneSlot_sat h (by omega) hg hget) ?_
+    refine Sat.bind (loadOneSlot_sat h (by omega) hg hget (hent (by omega)) hA hAll) ?_
     intro st1 h1
-    have h1' : Inv cfg img ((pos + 1 : Nat) : Int) st1 := by
+    have h1' : InvT cfg img g ((pos + 1 : Nat) : Int) st1 := by
       have : ((pos + 1 : Nat) : Int) = (pos : Int) + 1 := by omega
       rw [this]; exact h1
     exact ih (pos + 1) st1 h1' (by omega) hdrop'
 
 /-! ### validation -/
 
-theorem validateOneEntry_sat {cfg : Cfg} {g : Geo} {st : St} {f : Nat} (h : Inv cfg img g.slots st) :
-    Sat (validateOneEntry cfg g st f) (Inv cfg img g.slots) := by
+theorem validateOneEntry_sat {cfg : Cfg} {g : Geo} {st : St} {f : Nat} (h : InvT cfg img g g.slots st)
+    (hA : A.pushed = true ∨ Own cfg img) :
+    Sat A (validateOneEntry cfg g st f)
+      (fun st' => InvT cfg img g g.slots st' ∧ (st'.le f).state ≠ .loading ∧
+        ∀ k, (st.le k).state ≠ .loading → (st'.le k).state ≠ .loading) := by
   unfold validateOneEntry
   have h0 := h.setCnt { st.cnt with validations := st.cnt.validations + 1 }
   simp only
   split
   · rename_i hs
-    have hsz := (h0.loading f hs).2.2 (by simp)
-    refine Sat.mono (finalizeOrFree_inv (pC' := g.slots) h0 hs (Int.le_refl _) ?_ (Int.le_refl _) (Int.le_refl _) ?_) (fun st' hp => hp.1)
+    have hsz := (h0.core.loading f hs).2.2 (by simp)
+    refine Sat.mono (finalizeOrFree_inv (pos := (g.slots : Int)) (pC' := g.slots) h0.core h0.tight hs (Int.le_refl _) ?_
+      (Int.le_refl _) (Int.le_refl _) ?_ (by omega) (h0.tight.sized f hs (by simp)) h0.fr hA h0.pr
+      (fun ho pL L hL => (h0.pr ho).sizes f hs (by simp) pL L hL)) ?_
     · intro x hx
       simp only [slotOk, Bool.and_eq_true, decide_eq_true_eq] at hx
       omega
     · cases hsz with
       | inl e => exact Or.inl e
       | inr e => exact Or.inr (Nat.le_of_lt e)
-  · exact Sat.pure h0
+    · rintro st' ⟨hc, ht, hfo, hnl, _, hpr, hother⟩
+      refine ⟨⟨hc, ht, hfo, hpr⟩, hnl, ?_⟩
+      intro k hk
+      by_cases hkf : k = f
+      · subst hkf; exact hnl
+      · rw [hother k hkf]; exact hk
+  · rename_i hs
+    refine Sat.pure ⟨h0, ?_, fun k hk => hk⟩
+    intro hl
+    exact hs hl
 
-theorem validateEntries_sat {cfg : Cfg} {g : Geo} : ∀ (n f : Nat) (st : St), Inv cfg img g.slots st →
-    Sat (validateEntries cfg g n f st) (Inv cfg img g.slots) := by
+theorem validateEntries_sat {cfg : Cfg} {g : Geo} (hA : A.pushed = true ∨ Own cfg img) :
+    ∀ (n f : Nat) (st : St), InvT cfg img g g.slots st → (∀ k, k < f → (st.le k).state ≠ .loading) →
+    Sat A (validateEntries cfg g n f st)
+      (fun st' => InvT cfg img g g.slots st' ∧ ∀ k, k < f + n → (st'.le k).state ≠ .loading) := by
   intro n
   induction n with
-  | zero => intro f st h; exact Sat.pure h
+  | zero => intro f st h hdone; exact Sat.pure ⟨h, by simpa using hdone⟩
   | succ n ih =>
-    intro f st h
+    intro f st h hdone
     unfold validateEntries
-    exact Sat.bind (validateOneEntry_sat h) (fun st1 h1 => ih (f + 1) st1 h1)
+    refine Sat.bind (validateOneEntry_sat h hA) ?_
+    rintro st1 ⟨h1, hf1, hkeep⟩
+    refine Sat.mono (ih (f + 1) st1 h1 ?_) ?_
+    · intro k hk
+      by_cases hkf : k = f
+      · subst hkf; exact hf1
+      · exact hkeep k (hdone k (by omega))
+    · rintro st' ⟨h', hd'⟩
+      exact ⟨h', fun k hk => hd' k (by omega)⟩
 
-theorem validateSlots_sat {cfg : Cfg} {g : Geo} : ∀ (n s : Nat) (st : St), Inv cfg img g.slots st →
-    Sat (validateSlots g n s st) (Inv cfg img g.slots) := by
+theorem validateSlots_sat {cfg : Cfg} {g : Geo} (hU : A.unprocessed = true ∨ Own cfg img) :
+    ∀ (n s : Nat) (st : St), InvT cfg img g g.slots st → s + n = g.slots → (∀ k, (st.le k).state ≠ .loading) →
+    Sat A (validateSlots g n s st) (InvT cfg img g g.slots) := by
   intro n
   induction n with
-  | zero => intro s st h; exact Sat.pure h
+  | zero => intro s st h _ _; exact Sat.pure h
   | succ n ih =>
-    intro s st h
+    intro s st h hs hnl
     unfold validateSlots
-    refine Sat.bind (m := validateOneSlot g st s) (P := Inv cfg img g.slots) ?_ (fun st1 h1 => ih (s + 1) st1 h1)
+    refine Sat.bind (m := validateOneSlot g st s)
+      (P := fun st1 => InvT cfg img g g.slots st1 ∧ ∀ k, (st1.le k).state ≠ .loading) ?_
+      (fun st1 h1 => ih (s + 1) st1 h1.1 (by omega) h1.2)
     unfold validateOneSlot
-    refine Sat.check (by decide) fun _ => ?_
-    refine Sat.check (by decide) fun _ => ?_
-    exact Sat.pure (h.setCnt _)
+    refine Sat.check (by simp only [slotOk, Bool.and_eq_true, decide_eq_true_eq]; omega) ?_
+    cases hU with
+    | inl hu =>
+      refine Sat.checkA (by simpa [allowed] using hu) fun _ => ?_
+      exact Sat.pure ⟨h.setCnt _, hnl⟩
+    | inr ho =>
+      refine Sat.check ?_ (Sat.pure ⟨h.setCnt _, hnl⟩)
+      rcases (h.pr ho).done (s : Int) (by omega) (by omega) with a | ⟨a, b⟩ | ⟨k, _, b, _⟩
+      · simp [a]
+      · simp [a, b]
+      · exact absurd b (hnl k)
 
-/-- the whole rebuild: never out of fuel, and the invariant holds at the end -/
-theorem rebuild_sat (cfg : Cfg) (img : List RawSlot) :
-    Sat (rebuild cfg img) (Inv cfg img (cfg.geo img.length).slots) := by
+/-- the whole rebuild: it either dies in one of the ways `A` tolerates or ends in a state satisfying the invariant -/
+theorem rebuild_sat (cfg : Cfg) (habs : 0 < cfg.k.entryLimitAbsolute) (img : List RawSlot)
+    (hA : A.pushed = true ∨ Own cfg img) (hAll : A.allOnes = true ∨ cfg.v.rejectsAllOnesSizes = true)
+    (hU : A.unprocessed = true ∨ cfg.doubleCheck = false ∨ Own cfg img) :
+    Sat A (rebuild cfg img) (InvT cfg img (cfg.geo img.length) (cfg.geo img.length).slots) := by
   unfold rebuild
   simp only
-  refine Sat.bind (loadAll_sat rfl img 0 St.init (inv_init cfg img) (by simp [Cfg.geo]) (by simp)) ?_
+  have hent : 0 < (cfg.geo img.length).slots → 0 < (cfg.geo img.length).entries := by
+    intro h
+    simp only [Cfg.geo] at h ⊢
+    omega
+  refine Sat.bind (loadAll_sat rfl hent hA hAll img 0 St.init
+    ⟨inv_init cfg img, tight_init _, freeOK_init cfg img, fun _ => procCore_init cfg img⟩ (by simp [Cfg.geo]) (by simp)) ?_
   intro st1 h1
-  refine Sat.bind (validateEntries_sat _ 0 st1 h1) ?_
-  intro st2 h2
+  refine Sat.bind (validateEntries_sat hA _ 0 st1 h1 (fun k hk => by omega)) ?_
+  rintro st2 ⟨h2, hdone⟩
+  -- no entry is Loading any more: positions below the entry limit were validated, the others were never touched
+  have hnl : ∀ k, (st2.le k).state ≠ .loading := by
+    intro k hl
+    have hne : (st2.le k).state ≠ .empty := by rw [hl]; decide
+    have hk := h2.tight.bound k hne
+    exact hdone k (by omega) hl
   split
-  · exact validateSlots_sat _ 0 st2 h2
+  · rename_i hdc
+    rcases hU with hu | hu | hu
+    · exact validateSlots_sat (Or.inl hu) _ 0 st2 h2 (by simp) hnl
+    · rw [hu] at hdc; cases hdc
+    · exact validateSlots_sat (Or.inr hu) _ 0 st2 h2 (by simp) hnl
   · exact Sat.pure h2
 
 end SquidModel.Rock
